@@ -336,7 +336,7 @@ static std::vector<std::pair<std::string, std::string> > frame_mutations(const s
 	q = p; q.kid = own.keyid(1); r.push_back(std::make_pair(join3(q), "tag:short:keyid:ID1"));
 	q = p; q.kid = own.keyid(4); r.push_back(std::make_pair(join3(q), "tag:short:keyid:ID4"));
 	q = p; q.kid = own.keyid(9); r.push_back(std::make_pair(join3(q), "tag:short:keyid:ID9"));
-	q = p; q.kid = own.keyid(100000); r.push_back(std::make_pair(join3(q), "tag:short:keyid:IDfull"));
+	q = p; q.kid = own.keyid(100000); r.push_back(std::make_pair(join3(q), "tag:mut:keyid:oversize"));
 	q = p; q.kid[q.kid.size() - 1] ^= 1; r.push_back(std::make_pair(join3(q), "tag:mut:keyid:lastchar"));
 	q = p; q.kid[2] = '7'; r.push_back(std::make_pair(join3(q), "tag:mut:keyid:size7"));
 	q = p; q.kid = "ID+8^" + p.kid.substr(4); r.push_back(std::make_pair(join3(q), "tag:mut:keyid:plussign"));
